@@ -208,9 +208,20 @@ impl Monitor for C16 {
         let mut s = v1_streams(tier, 6_000);
         s.push(stream("c16-v2", tier.n(40, 400_000, 15_000_000)));
         s.push(stream("c16-tlv", tier.n(40, 400_000, 15_000_000)));
+        s.push(spec::engine::exhaustive("calling-context", 2));
         s
     }
     fn run_case(&self, stream: &str, idx: u64, seed: u64, rec: &mut Recorder) {
+        if stream == "calling-context" {
+            // the same calls from an ordinary place, a second time, and from a thread-local
+            // destructor at thread exit (pure functions do not depend on where they are called)
+            let _ = (idx, seed);
+            if spec::engine::layer().starts_with("miri") {
+                return;
+            }
+            crate::adapt::judge_context(&["C16"], rec);
+            return;
+        }
         match stream {
             "c16-v2" => {
                 let mut rng = Rng::for_case(seed, stream_id(stream), idx);
